@@ -84,6 +84,11 @@ def build_repo_bins(packages=("adf-bdd-bin",), extra=()):
 def run_harness(binary, args, timeout=3600, env_extra=None):
     env = dict(os.environ)
     env["VERIF_SEED"] = str(SEED)
+    os.makedirs(WORK, exist_ok=True)
+    crumb = os.path.join(WORK, "crumb_%d.json" % os.getpid())
+    if os.path.exists(crumb):
+        os.remove(crumb)
+    env["VERIF_CRUMB"] = crumb
     if env_extra:
         env.update(env_extra)
     t0 = time.time()
@@ -94,10 +99,17 @@ def run_harness(binary, args, timeout=3600, env_extra=None):
         raise ToolError("harness timed out: " + " ".join(args))
     if p.returncode < 0 or p.returncode in (134, 139):
         # killed by a signal (abort / stack overflow) while executing code under test: that is data, not tool trouble
-        raise CodeCrash("harness %s killed by signal %d while running the code under test\n%s" %
-                        (" ".join(args), p.returncode, (p.stderr or "")[-1500:]))
+        e = CodeCrash("harness %s killed by signal %d while running the code under test\n%s" %
+                      (" ".join(args), p.returncode, (p.stderr or "")[-1500:]))
+        try:
+            e.case = json.load(open(crumb))          # the case that was running when the process died
+        except Exception:
+            e.case = None
+        raise e
     if p.returncode != 0:
         raise ToolError("harness failed (%d): %s\n%s" % (p.returncode, " ".join(args), (p.stderr or "")[-2000:]))
+    if os.path.exists(crumb):
+        os.remove(crumb)
     log("harness %s: %.1fs %s" % (args[0], time.time() - t0, (p.stderr or "").strip().splitlines()[-1:] ))
     return p
 
